@@ -98,7 +98,8 @@ func c06Oracle(ec *epCase) *Failure {
 		}
 		// ExistsOrMatch dispatch
 		want := o.e
-		if ec.parsed.IsPredicate() {
+		// (whether the path is a predicate check is read off the abstract path, not asked of the implementation)
+		if ec.p.E.K.isPredicate() && len(ec.p.E.Steps) == 0 {
 			want = o.m
 		}
 		if boolOut(o.x) != boolOut(want) && !unordered {
